@@ -1,6 +1,8 @@
 package main
 
 import (
+	"go/constant"
+	"go/token"
 	"go/types"
 	"sort"
 
@@ -260,7 +262,7 @@ func (p *Program) guardContexts(b *ssa.BasicBlock) [][]guardFact {
 }
 
 func (p *Program) guardContextsDepth(b *ssa.BasicBlock, depth int) [][]guardFact {
-	local := guardsOf(b)
+	local := p.expandFacts(guardsOf(b))
 	fn := b.Parent()
 	if fn.Parent() != nil || !p.isTransparent(fn) || depth > 3 {
 		return [][]guardFact{local}
@@ -322,6 +324,214 @@ func (p *Program) callMay(c ssa.CallInstruction, pred func(ssa.Instruction) bool
 		}
 	})
 	return found
+}
+
+// guardedInEveryContext: in every calling context of block b some guard satisfies pred.
+func (p *Program) guardedInEveryContext(b *ssa.BasicBlock, pred func(guardFact) bool) bool {
+	for _, ctx := range p.guardContexts(b) {
+		ok := false
+		for _, g := range ctx {
+			if pred(g) {
+				ok = true
+				break
+			}
+		}
+		if !ok {
+			return false
+		}
+	}
+	return true
+}
+
+// onlyFrom: every origin of v (through transparent helpers) is target.
+func (p *Program) onlyFrom(v, target ssa.Value) bool {
+	if v == target {
+		return true
+	}
+	os := p.origins(v, originOpts{})
+	if len(os) == 0 {
+		return false
+	}
+	for _, o := range os {
+		if o != target {
+			return false
+		}
+	}
+	return true
+}
+
+// binding maps the parameters of a transparent helper (and of the helpers it
+// was reached through) to the arguments of one call chain.
+type binding map[*ssa.Parameter]ssa.Value
+
+func (b binding) subst(v ssa.Value) ssa.Value {
+	for i := 0; i < 6; i++ {
+		par, ok := v.(*ssa.Parameter)
+		if !ok {
+			return v
+		}
+		a, ok := b[par]
+		if !ok {
+			return v
+		}
+		v = a
+	}
+	return v
+}
+
+// bindings returns one binding per chain of call sites through which the
+// transparent helper fn is reached from non-transparent code; a single empty
+// binding for any other function.
+func (p *Program) bindings(fn *ssa.Function) []binding {
+	return p.bindingsDepth(fn, 0)
+}
+
+func (p *Program) bindingsDepth(fn *ssa.Function, depth int) []binding {
+	for fn.Parent() != nil {
+		fn = fn.Parent()
+	}
+	if !p.isTransparent(fn) || depth > 3 {
+		return []binding{{}}
+	}
+	var out []binding
+	for _, s := range p.helpers().sites[fn] {
+		for _, outer := range p.bindingsDepth(s.Parent(), depth+1) {
+			b := binding{}
+			for k, v := range outer {
+				b[k] = v
+			}
+			for i, par := range fn.Params {
+				if a := argAt(s, i); a != nil {
+					b[par] = a
+				}
+			}
+			out = append(out, b)
+		}
+	}
+	if len(out) == 0 {
+		return []binding{{}}
+	}
+	return out
+}
+
+// ---------------------------------------------------------------------------
+// Boolean values: what must hold when v evaluates to `want`
+// ---------------------------------------------------------------------------
+
+// factsWhen returns atomic facts (condition value, polarity) that hold whenever
+// the boolean SSA value v evaluates to want, looking through negation and
+// through the phi nodes that short-circuit operators and if/else assignments
+// produce (for a phi: the facts common to every incoming edge that can yield
+// `want`, including the branch conditions under which that edge is taken).
+// impossible reports that v can never evaluate to want.
+func (p *Program) factsWhen(v ssa.Value, want bool) (facts []guardFact, impossible bool) {
+	return p.factsWhenDepth(v, want, 0)
+}
+
+func (p *Program) factsWhenDepth(v ssa.Value, want bool, depth int) ([]guardFact, bool) {
+	if depth > 8 {
+		return []guardFact{{Cond: v, True: want}}, false
+	}
+	switch x := v.(type) {
+	case *ssa.Const:
+		if x.Value != nil && x.Value.Kind() == constant.Bool {
+			if constant.BoolVal(x.Value) != want {
+				return nil, true
+			}
+			return nil, false
+		}
+	case *ssa.UnOp:
+		if x.Op == token.NOT {
+			return p.factsWhenDepth(x.X, !want, depth+1)
+		}
+	case *ssa.Phi:
+		var common []guardFact
+		first := true
+		for k, e := range x.Edges {
+			pred := x.Block().Preds[k]
+			fs, imp := p.factsWhenDepth(e, want, depth+1)
+			if imp {
+				continue
+			}
+			fs = append(fs, edgeFacts(pred, x.Block())...)
+			if first {
+				common, first = fs, false
+			} else {
+				common = intersectFacts(common, fs)
+			}
+		}
+		if first {
+			return nil, true
+		}
+		return common, false
+	}
+	return []guardFact{{Cond: v, True: want}}, false
+}
+
+// edgeFacts: the guards that hold when control passes from pred to succ.
+func edgeFacts(pred, succ *ssa.BasicBlock) []guardFact {
+	out := append([]guardFact{}, guardsOf(pred)...)
+	if ifi := blockIf(pred); ifi != nil && pred.Succs[0] != pred.Succs[1] {
+		if pred.Succs[0] == succ {
+			out = append(out, guardFact{ifi.Cond, true, ifi})
+		} else if pred.Succs[1] == succ {
+			out = append(out, guardFact{ifi.Cond, false, ifi})
+		}
+	}
+	return out
+}
+
+func intersectFacts(a, b []guardFact) []guardFact {
+	var out []guardFact
+	for _, x := range a {
+		for _, y := range b {
+			if x.Cond == y.Cond && x.True == y.True {
+				out = append(out, x)
+				break
+			}
+		}
+	}
+	return out
+}
+
+// expandFacts decomposes every guard with factsWhen (a guard on `!(a || b)`
+// stored in a variable becomes the facts !a and !b).
+func (p *Program) expandFacts(gs []guardFact) []guardFact {
+	var out []guardFact
+	for _, g := range gs {
+		fs, imp := p.factsWhen(g.Cond, g.True)
+		if imp {
+			continue
+		}
+		for _, f := range fs {
+			if f.If == nil {
+				f.If = g.If
+			}
+			out = append(out, f)
+		}
+	}
+	return out
+}
+
+// sameOrigins: a and b have the same, non-empty set of origins (the same value seen from
+// two functions of a region, e.g. a helper's parameter and the caller's argument).
+func (p *Program) sameOrigins(a, b ssa.Value) bool {
+	oa, ob := p.origins(a, originOpts{}), p.origins(b, originOpts{})
+	if len(oa) == 0 || len(oa) != len(ob) {
+		return false
+	}
+	for _, x := range oa {
+		found := false
+		for _, y := range ob {
+			if x == y {
+				found = true
+			}
+		}
+		if !found {
+			return false
+		}
+	}
+	return true
 }
 
 var _ = types.Typ
